@@ -400,7 +400,9 @@ def encode(ctx):
                      f"expected one serde_json::to_writer call in encode, found {len(sers)} (shape not understood)", **loc):
         return
     ser = sers[0]
-    wroots = P.local_roots(ser["args"][0])
+    wl = P.local_of(ser["args"][0])          # the writer handed to serde_json::to_writer
+    if not ctx.check(wl is not None, R_, fn["fn"], "writer-local", "writer is a local", "the writer passed to serde_json::to_writer is not a local (shape not understood)", **loc):
+        return
     ctx.check("p0" in P.labels(ser["args"][1]), R_, fn["fn"], "serialises-message", "the message parameter is serialised", "to_writer does not serialise the message parameter", **loc)
     # length: <int>.to_be_bytes() where <int> derives from X.len() and X derives from the writer (into_inner) — after serialisation
     cands = []
@@ -409,7 +411,7 @@ def encode(ctx):
             lens = [m for l in P.local_roots(n["recv"]) | {None} for s in (P.sources(l) if l is not None else [n["recv"]]) for m in walk(s)
                     if m.get("e") == "mcall" and m.get("name") == "len"]
             for m in lens:
-                if P.local_roots(m["recv"]) & wroots and order[id(m)] > order[id(ser)]:
+                if wl in P.local_roots(m["recv"]) and order[id(m)] > order[id(ser)]:
                     cands.append((n, m))
     if not ctx.check(bool(cands), R_, fn["fn"], "length-of-serialised-payload", "header value = (buffer filled by to_writer).len(), taken after serialisation",
                      "no `<payload buffer>.len() .. .to_be_bytes()` computed after serde_json::to_writer from the buffer it filled: the length field is not the serialised payload's length "
@@ -435,7 +437,7 @@ def encode(ctx):
         hdr = P.local_of(writes[0]["recv"])
         # the header slot must be stitched in front of the payload: hdr.unsplit(payload) then dst.unsplit(hdr)
         uns = [n for n in walk(fn["body"]) if n.get("e") == "mcall" and n.get("name") == "unsplit" and not n.get("exp")]
-        front = [n for n in uns if P.local_of(n["recv"]) == hdr and (P.local_roots(n["args"][0]) & wroots)]
+        front = [n for n in uns if P.local_of(n["recv"]) == hdr and wl in P.local_roots(n["args"][0])]
         out = [n for n in uns if P.param_of.get(P.local_of(n["recv"])) == "p1" and hdr in P.local_roots(n["args"][0])]
         ctx.check(len(front) == 1 and len(out) == 1 and order[id(front[0])] < order[id(out[0])] and order[id(writes[0])] < order[id(out[0])], R_, fn["fn"], "header-precedes-payload",
                   "header.unsplit(payload); dst.unsplit(header)",
